@@ -3,6 +3,7 @@ package fractal
 import (
 	"context"
 	"fmt"
+	"io"
 	"sync"
 	"sync/atomic"
 	"time"
@@ -191,13 +192,20 @@ func (ls *LocalSuperior) RemoveTask(id uuid.UUID) {
 
 func (ls *LocalSuperior) submitCollectorMsg(ctx context.Context, resp *CollectorMsg) (err error) {
 	ls.taskCacheLock.Lock()
-	defer ls.taskCacheLock.Unlock()
 	v, ok := ls.taskCache.Get(resp.Msg.ID())
+	ls.taskCacheLock.Unlock()
 	if !ok {
 		// TODO: maybe return error
 		return nil
 	}
 	ch := v.(chan *CollectorMsg)
+	// the waiter may be slow: do not keep the cache locked while handing over.
+	// RemoveTask closes the channel, a sender blocked on it (or arriving late) panics
+	defer func() {
+		if recover() != nil {
+			err = io.ErrClosedPipe
+		}
+	}()
 	select {
 	case <-ctx.Done():
 		err = ctx.Err()
